@@ -247,6 +247,13 @@ def r18_5(ctx, rep, roles, m):
         for e in row.calls():
             if sym.strip_all_generics(e[1]).endswith("BTreeMap::remove") and T.mentions_field(e[2][0], NS, "key_values"):
                 n_rm += 1
+    # ... and the loop over the supplied pairs is left only when they are exhausted: no returning path still had a pair in hand
+    # (`break`, or a take_while in front of the loop / for_each)
+    for row in m.ret:
+        left_early = [c for c in row.cond if c[0] == "variant" and c[3] and c[2] == "Some" and c[1][0] == "call" and c[1][1].endswith("::next") and any(
+            x == ("obj", ("S", "kvs")) for x in T.subterms(T.resolve_locals(m.eng, row.store, c[1])))]
+        rep.obligation(not left_early, "C18/R18.5/supplied-iteration", "a returning path leaves the loop over the supplied pairs while a pair is still available",
+                       where(m.fn, row.site[1]), sample="the supplied-pairs loop ends only when the iterator is exhausted")
     direct = [s for s in inv.field_writes(m.fx, NS, "key_values") if m.fx.root_fn(s.fn) == m.fn["id"]]
     rep.obligation(not direct, "C18/R18.5/direct-map-write", "catch-up manipulates key_values directly", where(m.fn),
                    sample="no direct key_values access in catch-up")
